@@ -285,6 +285,24 @@ func (ex *Executor) importedPkg(name string, env *SpecEnv) *types.Package {
 			return imp
 		}
 	}
+	// import aliases of the package's own source files (afp "github.com/google/gopacket/afpacket")
+	for _, lp := range ex.P.Pkgs {
+		if lp.Types != pkg {
+			continue
+		}
+		for _, f := range lp.Syntax {
+			for _, is := range f.Imports {
+				if is.Name != nil && is.Name.Name == name {
+					path := strings.Trim(is.Path.Value, "\"")
+					for _, imp := range pkg.Imports() {
+						if imp.Path() == path {
+							return imp
+						}
+					}
+				}
+			}
+		}
+	}
 	// any loaded package with that name (contracts may mention packages their package does not import)
 	var found *types.Package
 	var walk func(p *types.Package, seen map[*types.Package]bool)
